@@ -21,6 +21,7 @@ import flow
 import gen
 import mockca
 import vlib
+from ext import accountmulti
 
 FINISH = dict(
     level="proof",
@@ -28,7 +29,9 @@ FINISH = dict(
         "Lean 4.33 kernel; axioms of every theorem within {propext, Classical.choice, Quot.sound}",
         "Lean compiler for acmed_model (evaluates the same definitions the theorems are about)",
         "in-crate probe ops account_roundtrip / account_reload (probe/account_probe.rs) calling the real "
-        "Account::load, save, storage::fetch and setters; config_load calling the real MainEventLoop::new",
+        "Account::load, save, storage::fetch and setters; config_load calling the real MainEventLoop::new; "
+        "am_load / am_sync calling the real Account::load, add_endpoint_name and Account::synchronize on real "
+        "Endpoint objects (the directory refresh is re-stated in three lines: acme_proto::http is private)",
         "py/mockca.py (RFC 8555 mock CA; signatures verified through OpenSSL in vhelper) and py/flow.py "
         "(black-box daemon runner)",
         "modelled, not verified: serde/bincode 1.3.3 (transliterated in Model/Bincode.lean and compared "
@@ -47,7 +50,12 @@ FINISH = dict(
          "random) over {contacts, key type, both, binding add/remove/change, restart, renew on a "
          "certificate of endpoint A or B, CA forgets} on 1..2 certificates / 1..2 endpoints (two mock "
          "CAs); every renewal judged by Spec.C11.holds on the CA's request log and table. non-trivial "
-         "(A) = at least one endpoint or superseded key; (B) = a renewal preceded by an edit or amnesia.",
+         "(A) = at least one endpoint or superseded key; (B) = a renewal preceded by an edit or amnesia. "
+         "M (py/ext/accountmulti.py): one account with 2..3 endpoints (one mock CA each) held in one probe process; "
+         "histories (catalogue + random, 3..8 steps) of edits / restarts / amnesia / synchronisations of one named "
+         "endpoint with injected faults; every synchronisation compared with Model/AccountMulti.lean (requests, every "
+         "endpoint record, saved file) and judged: other CAs receive nothing, other records unchanged, roll-over "
+         "verifies under the key that CA holds; non-trivial (M) = another endpoint is registered at that time.",
 )
 
 KEY_TYPES = ["ecdsa_p256", "ecdsa_p384", "ecdsa_p521", "ed25519", "ed448", "rsa2048", "rsa4096"]
@@ -1097,6 +1105,8 @@ def run(ctx):
         hists += [gen_history(ctx.rng, 4 if quick else 6, pool) for _ in range(36 if quick else 400)]
         hists += [dict(c["history"]) for c in vlib.corpus("C11") if "history" in c]
         run_histories(ctx, os.path.join(root, "B"), hists)
+        # ---- part M: one account, several endpoints (Model/AccountMulti.lean, Props/C11Indep.lean)
+        accountmulti.extend(ctx, None, os.path.join(root, "M"))
     finally:
         shutil.rmtree(root, ignore_errors=True)
     ctx.assumptions = [
@@ -1161,6 +1171,8 @@ def replay(ctx):
                 unreadable_cases(ctx, root, t, 0)
         elif part == "B":
             run_histories(ctx, os.path.join(root, "B"), [obj["history"]])
+        elif part == "M":
+            accountmulti.extend(ctx, None, os.path.join(root, "M"), hists=[obj["history"]])
         else:
             print("nothing to replay in this file (kind=%s)" % r.get("kind"))
     finally:
